@@ -18,7 +18,9 @@ class P:
 class Q:
   def __add__(self, o): return 1
   def __call__(self, *a): return 'c'
-  def __getitem__(self, i): return i
+  def __getitem__(self, i):
+    if i == 2: raise IndexError()
+    return i
   def __neg__(self): return self
   def __len__(self): return 0
   def meth(self, a=0): return a
@@ -97,11 +99,25 @@ def run_isolated_stmt(stmt):
   """Executes one statement under CPython in a fresh namespace; returns exception class name or None."""
   ns = {"__name__": "__vk_prog__"}
   exec(PRELUDE, ns)  # pylint: disable=exec-used
+  import signal
+
+  class _Horizon(BaseException):
+    pass
+
+  def _on(signum, frame):
+    raise _Horizon()
+  old = signal.signal(signal.SIGALRM, _on)
+  signal.setitimer(signal.ITIMER_REAL, 5)
   try:
     exec(compile("_ = " + stmt, "<stmt>", "exec"), ns)  # pylint: disable=exec-used
     return None, None
+  except _Horizon:
+    return "Horizon", "statement did not finish within 5 s"
   except BaseException as e:  # pylint: disable=broad-except
     return type(e).__name__, str(e)[:120]
+  finally:
+    signal.setitimer(signal.ITIMER_REAL, 0)
+    signal.signal(signal.SIGALRM, old)
 
 
 def operand_kinds(stmt, cls):
